@@ -6,9 +6,9 @@ from vf.core import pbytes
 from vf.grid import Grid
 
 SHARE_DAMAGE = ["delete", "trunc-header", "flip-all-blocks", "bad-share-version", "flip-data-byte", "flip-block-hash", "flip-share-hash", "flip-ueb", "flip-cthash",
-                "trunc-mid-data", "trunc-end-1", "flip-unused"]
+                "trunc-mid-data", "trunc-end-1", "flip-unused", "reblock", "reblock-one"]
 # damage after which the share can certainly not contribute a block (outside G-)
-CERTAIN = {"delete", "trunc-header", "flip-all-blocks", "bad-share-version"}
+CERTAIN = {"delete", "trunc-header", "flip-all-blocks", "bad-share-version", "reblock", "reblock-one"}
 SERVER_FAULTS = ["down", "fail-dyhb", "dead-dyhb", "fail-read-once", "fail-reads-from", "disconnect-after", "late"]
 
 
@@ -158,6 +158,29 @@ def apply_damage(path, kind, arg):
         return flip_in("crypttext_hash_tree")
     elif kind == "flip-unused":
         return flip_in("plaintext_hash_tree") or flip_in("container_len")
+    elif kind in ("reblock", "reblock-one"):
+        # a forger's share: block data changed (all of it, or one byte) and the block hash tree rebuilt over the new blocks, so the share is
+        # consistent in itself; only the link to the share hash tree (its leaf for this share number) no longer matches
+        from allmydata.hashtree import HashTree
+        from allmydata.util.hashutil import block_hash
+        a, b = F["data"]
+        raw = info["raw"]
+        data = bytearray(raw[a:b])
+        if kind == "reblock":
+            data = bytearray(x ^ 0xff for x in data)
+        elif data:
+            data[arg % len(data)] ^= 1 << (arg % 8)
+        bs = info["vals"]["block_size"]
+        if bs <= 0 or not data:
+            return False
+        blocks = [bytes(data[i:i + bs]) for i in range(0, len(data), bs)]
+        tree = HashTree([block_hash(blk) for blk in blocks])
+        ha, hb = F["block_hashes"]
+        packed = b"".join(tree)
+        if len(packed) != hb - ha:
+            return False
+        imm_share.patch(path, a, bytes(data))
+        imm_share.patch(path, ha, packed)
     elif kind == "trunc-mid-data":
         a, b = F["data"]
         imm_share.truncate(path, a + arg % max(1, b - a))
